@@ -120,7 +120,14 @@ def finish(report, tier, t0, explanation, assumptions, rule_text, extra_cov=None
     if tier == "thorough" and os.environ.get("CBV_REPO", "/repo") == "/repo":
         from . import selftest
         st = selftest.run(prop)
-        extra_cov = dict(extra_cov or {}, selftest=st)
+        bn = selftest.run_benign(prop)
+        extra_cov = dict(extra_cov or {}, selftest=st, selftest_benign=bn)
+        for m in bn:
+            if m["outcome"] == "FALSE-ALARM":
+                report.fatal.append("selftest: behaviour-preserving refactoring %s makes the %s check raise an alarm: %s" % (
+                    m["patch"], prop, m.get("reported")))
+            report.counters["selftest_benign_" + m["outcome"].lower().replace("-", "_")] = \
+                report.counters.get("selftest_benign_" + m["outcome"].lower().replace("-", "_"), 0) + 1
         for m in st:
             if m["outcome"] == "MISSED":
                 report.fatal.append("selftest: seeded mutation %s is not reported by the %s check (expected key containing "
